@@ -14,7 +14,11 @@ checks, na, served = [], [], []
 for p in props:
     pid = p["id"]
     try:
+        if not os.path.exists(os.path.join(HERE, "coq", "props", pid + ".v")):
+            raise ImportError("no theorem file yet")
         mod = importlib.import_module(pid.lower())
+        if mod.SPEC.get("wip"):
+            raise ImportError("work in progress")
     except ImportError:
         na.append({"property_id": pid,
                    "reason": "not built yet in this round (planned, see DESIGN.md section 5); no claim is made"})
